@@ -123,6 +123,7 @@ Definition exc_args (x : excspec) : list value := match x with EInst _ a => a | 
 (* ---------- process state ---------- *)
 Definition pid := nat.          (* a HasPatcher object, by identity *)
 Inductive stream := Real | Patched (owner : pid) (err : excspec).   (* PatchedStringIO / PatchedSocket carry what to raise *)
+Definition is_real (s : stream) : bool := match s with Real => true | _ => false end.
 Inductive effkind := KOut | KErr | KSock.
 Inductive event :=
 | EvBody (f : fid) (a : pargs) (k : pkwargs)      (* the undecorated function body started, with what it received *)
